@@ -15,7 +15,7 @@ ASSUMPTIONS = [
 
 IGN = '\x00\x7f'
 ALPHA = ['\\', '{', '}', '$', '&', '\n', '\r', '#', '^', '_', '\x00', ' ', '\t', 'a', '.', '~', '%', '\x7f',
-         '[', ']', '(', ')', '*', '|', '<', 'left', 'big', 'Bigg', 'langle', 'item', 'é']
+         '[', ']', '(', ')', '*', '|', '<', 'left', 'big', 'Bigg', 'langle', 'item', 'é', 'a*', '@']
 
 
 def check_string(s, sub, res=None, count=True):
